@@ -136,6 +136,11 @@ def main() -> int:
         "theorems": proof.get("theorems", []),
         "coqchk": proof.get("coqchk"),
         "trusted_base": ["Coq 8.16.1 kernel (coqc, full .vo build)", "axioms: " + (", ".join(proof.get("axioms", [])) or "none (closed under the global context)")]
+                        + ["extraction: Require Extraction, ExtrOcamlBasic, ExtrOcamlString only (no Extract Constant / Extract "
+                           "Inductive of our own); hand-written OCaml float dictionary (IEEE doubles + libm for R), s-expression "
+                           "reader/printer and driver",
+                           "translator/translate.py (fail-closed): tables, constants and numeric kernels regenerated from the "
+                           "source and proved equal to the model (Gen/*Check.v, Gen/KC_*_ok.v)"]
                         + getattr(mod, "TRUSTED", []),
     }
     framework.write_evidence(ctx, proof_ev, len(violations) + (1 if (rc and not violations) else 0),
